@@ -400,6 +400,12 @@ func (fr *Frame) binary(st *State, n *ast.BinaryExpr) Val {
 		if a.S == "GoString" {
 			return fr.unsupported(st, n, "string comparison", rt)
 		}
+		if a.S == "Real" && b.S == "Int" {
+			b = Val{T: "(to_real " + b.T + ")", S: "Real", Ty: b.Ty}
+		}
+		if b.S == "Real" && a.S == "Int" {
+			a = Val{T: "(to_real " + a.T + ")", S: "Real", Ty: a.Ty}
+		}
 		return Val{T: "(" + n.Op.String() + " " + a.T + " " + b.T + ")", S: "Bool", Ty: rt}
 	case token.ADD:
 		if a.S == "GoString" {
